@@ -301,8 +301,56 @@ def iana_tags(ctx, prog):
     ctx.floor('T-IANA', 'variants', n, 41)
 
 
+LOSSLESS_VIEWS = {
+    # projections / views of a value that lose nothing of it (std contracts); anything else between `self` and the bytes written
+    # is reported for review (a lossy conversion such as to_string_lossy writes a well-formed item for *another* value)
+    'as_c_str', 'as_path', 'as_os_str', 'ip', 'port', 'octets', 'segments', 'to_bytes_with_nul', 'to_bytes', 'as_bytes', 'as_str', 'to_str',
+    'as_ref', 'as_mut', 'deref', 'deref_mut', 'borrow', 'as_slice', 'as_ptr', 'unwrap', 'expect', 'get', 'get_ref', 'as_inner', 'into_inner',
+    'elem', 'len', 'clone', 'copied', 'cloned', 'to_owned', 'into', 'from', 'as_encoded_bytes', 'to_be_bytes', 'to_bits', 'secs', 'as_secs',
+    'subsec_nanos', 'duration_since', 'start', 'end', 'load', 'try_borrow', 'as_deref', 'iter', 'into_iter', 'slice', 'input',
+}
+
+
+def value_fidelity(ctx, prog):
+    """the data-model value written is the value given: string payloads reach the encoder through lossless views of `self` only"""
+    import re as _re
+    from . import summaries
+    from .. import l2
+    ctx.rules_run.append('S-ENC.value: the payload of every text / byte string item a built-in Encode impl writes is `self` seen through lossless views only (as_ref, to_str, octets, to_bytes_with_nul, ..); a conversion that is not in the reviewed list is reported')
+    n = 0
+    seen = set()
+    for im in prog.impls:
+        if im['trait'] != 'minicbor::encode::Encode' or im['krate'] != 'minicbor':
+            continue
+        ty = im['self_ty']
+        if ty in seen:
+            continue
+        seen.add(ty)
+        r = summaries.summary(prog, '<%s as minicbor::encode::Encode<C>>::encode' % ty, 'enc')
+        if not r or isinstance(r[0], str):
+            continue
+        inst, outs = r[0], r[1]
+        bad = set()
+        k = 0
+        for o in outs:
+            for it in l2.items_of(o.st.events):
+                if it[0] not in ('STR', 'BYTES'):
+                    continue
+                k += 1
+                for fn in _re.findall(r'([A-Za-z_][A-Za-z0-9_:]*)\(', str(it[1])):
+                    if fn.split('::')[-1] not in LOSSLESS_VIEWS:
+                        bad.add(fn)
+        n += k
+        if bad:
+            ctx.violation('S-ENC.value', '%s|%s' % (ty, sorted(bad)[0]), 'Encode for %s writes a string that went through %s, which is not a reviewed lossless view of the value: the item written may describe another value than the one given' % (ty, ', '.join(sorted(bad))), mir.loc(inst['sp']))
+        elif k:
+            ctx.ok('S-ENC.value', ty)
+    ctx.floor('S-ENC.value', 'string items', n, 10)
+
+
 def run(ctx):
     expl = _run1(ctx)
     wellformed(ctx, load.program('core-full'))
     iana_tags(ctx, load.program('core-full'))
+    value_fidelity(ctx, load.program('core-full'))
     return expl + ' Item-level emission summaries of all built-in Encode impls parse as exactly one item tree.'
